@@ -362,6 +362,44 @@ def wiring(src, fragment, tokens=None, reshaped_if=None):
     return 'reshaped' if all(t in have for t in tokens) else 'absent'
 
 
+BOUND_ATTRS = ('lower', 'upper', 'start', 'stop')
+
+
+def truthy_bound_uses(tree):
+    """[(attribute node, enclosing test)] for every range bound (``x.lower`` / ``.upper`` / ``.start`` / ``.stop``, not the
+    string method ``.lower()``) that is evaluated for *truth*: operand of ``or`` / ``and`` / ``not``, test of if / while /
+    conditional expression / comprehension filter, directly or through a walrus.  Loki's IntLiteral(0) is falsy, so such a
+    test takes an explicit bound 0 for an absent one."""
+    called = {id(c.func) for c in ast.walk(tree) if isinstance(c, ast.Call)}
+    out = []
+
+    def operands(x, acc):
+        if isinstance(x, ast.BoolOp):
+            for v in x.values:
+                operands(v, acc)
+        elif isinstance(x, ast.UnaryOp) and isinstance(x.op, ast.Not):
+            operands(x.operand, acc)
+        elif isinstance(x, ast.NamedExpr):
+            acc.append(x.value)
+        else:
+            acc.append(x)
+    for n in ast.walk(tree):
+        tests = []
+        if isinstance(n, (ast.If, ast.While, ast.IfExp)):
+            tests.append(n.test)
+        elif isinstance(n, ast.BoolOp):
+            tests.append(n)
+        elif isinstance(n, ast.comprehension):
+            tests += n.ifs
+        for t in tests:
+            acc = []
+            operands(t, acc)
+            for o in acc:
+                if isinstance(o, ast.Attribute) and o.attr in BOUND_ATTRS and id(o) not in called and not any(o is x for x, _ in out):
+                    out.append((o, t))
+    return out
+
+
 def names_assigned_from(fnode, *needles):
     """names of plain-Name assignment targets whose assigned value's source contains every needle (definition-based
     look-up of a local variable, so that rules do not depend on what the local is called)"""
